@@ -510,9 +510,70 @@ def limits_block(args):
     return obs
 
 
+def entry_branch_block(_b):
+    """isotherm entry points read the branch they are asked for: every sample read names `branch`, every read of the alpha-s
+    reference names `branch_ref` (recorded calls of the real entry points on sample isotherms with both branches; all four
+    combinations of branch / branch_ref)"""
+    import os
+    import pygaps
+    import pygaps.characterisation as pgc
+    import pygaps.parsing as pgp
+    from pgv.checks.c15 import _recording_class, ACCESSORS
+    pygaps.logger.disabled = True
+    data = os.path.join(os.environ.get('PGV_REPO', '/repo'), 'docs/examples/data/characterisation')
+    base_iso = pgp.isotherm_from_json(os.path.join(data, 'MCM-41 N2 77.355.json'))
+    ref_iso = pgp.isotherm_from_json(os.path.join(data, 'SiO2 N2 77.355.json'))
+    obs = []
+    calls = {
+        'area_BET': lambda i, r, b, br: pgc.area_BET(i, branch=b),
+        'area_langmuir': lambda i, r, b, br: pgc.area_langmuir(i, branch=b),
+        't_plot': lambda i, r, b, br: pgc.t_plot(i, branch=b),
+        'dr_plot': lambda i, r, b, br: pgc.dr_plot(i, branch=b, p_limits=(0, 0.1)),
+        'alpha_s': lambda i, r, b, br: pgc.alpha_s(i, r, reference_area='BET', branch=b, branch_ref=br),
+    }
+    for name, call in calls.items():
+        for b, br in ((('ads', 'ads'), ('des', 'ads'), ('ads', 'des'), ('des', 'des')) if name == 'alpha_s' else (('ads', None), ('des', None))):
+            log, rlog = [], []
+            iso = type(base_iso).from_isotherm(base_iso, isotherm_data=base_iso.data_raw.copy(), pressure_key=base_iso.pressure_key, loading_key=base_iso.loading_key)
+            if name == 'alpha_s':
+                # sample and reference with both branches on one pressure grid, so that no read is refused for range reasons
+                up = numpy.linspace(0.02, 0.9, 16)
+                pp = list(up) + list(up[::-1][1:])
+                mk_ = lambda f: pygaps.PointIsotherm(pressure=pp, loading=[f * 6 * 40 * x / (1 + 40 * x) / (1 - 0.6 * x) * (1.0 if k < 16 else 1.15) for k, x in enumerate(pp)],
+                                                     branch=[0] * 16 + [1] * 15, material='pgv_c14', adsorbate='nitrogen', temperature=77.355, pressure_mode='relative',
+                                                     pressure_unit=None, loading_basis='molar', loading_unit='mmol', material_basis='mass', material_unit='g',
+                                                     temperature_unit='K')
+                iso, ref = mk_(1.0), mk_(0.4)
+            else:
+                ref = type(base_iso).from_isotherm(ref_iso, isotherm_data=ref_iso.data_raw.copy(), pressure_key=ref_iso.pressure_key, loading_key=ref_iso.loading_key)
+            iso.__class__ = _recording_class(type(iso), log)
+            ref.__class__ = _recording_class(type(ref), rlog)
+            del log[:], rlog[:]
+            try:
+                call(iso, ref, b, br)
+                err = ''
+            except Exception as exc:
+                err = f"{type(exc).__name__}: {exc}"[:120]
+            cfg = f"branch={b}" + (f",branch_ref={br}" if br else '')
+            mine = [e for e in log if e[0] == 'call' and e[1] in ACCESSORS]
+            bad = [f"{e[1]}(branch={e[2].get('branch')!r})" for e in mine if e[2].get('branch') != b]
+            # (a refusal -- e.g. the reference branch does not cover the sample's pressures -- ends the run early; the reads made
+            # up to then are judged)
+            obs.append(static_ob(f"{P}/characterisation.{name}/protocol.sample_read_on_the_requested_branch/{cfg}", bool(mine) and not bad, ', '.join(bad) or err, backend='trace',
+                                 replay={'kind': 'c14.branch', 'entry': name, 'branch': b, 'branch_ref': br}))
+            if name == 'alpha_s':
+                # (the reference's BET area is computed on its adsorption branch by area_BET -- whole-branch reads; the alpha-s
+                # curve itself is read through loading_at)
+                rmine = [e for e in rlog if e[0] == 'call' and e[1] in ('loading_at', 'pressure_at')]
+                rbad = [f"{e[1]}(branch={e[2].get('branch')!r})" for e in rmine if e[2].get('branch') != br]
+                obs.append(static_ob(f"{P}/characterisation.{name}/protocol.reference_read_on_branch_ref/{cfg}", bool(rmine) and not rbad, ', '.join(rbad) or err, backend='trace',
+                                     replay={'kind': 'c14.branch', 'entry': name, 'branch': b, 'branch_ref': br}))
+    return obs
+
+
 def _dispatch(job):
     kind, arg = job
-    return {'bet': bet_block, 'lang': lang_block, 'tplot': tplot_block, 'da': da_block, 'cas': cas_block, 'limits': limits_block}[kind](arg)
+    return {'bet': bet_block, 'lang': lang_block, 'tplot': tplot_block, 'da': da_block, 'cas': cas_block, 'limits': limits_block, 'branch': entry_branch_block}[kind](arg)
 
 
 def run(rep):
@@ -540,6 +601,7 @@ def run(rep):
         jobs.append(('da', (n,)))
         jobs.append(('limits', (n,)))
     jobs.append(('cas', None))
+    jobs.append(('branch', None))
     obs, crashes = par.pmap(_dispatch, jobs)
     rep.extend(obs)
     if crashes:
